@@ -2,6 +2,7 @@ package chord
 
 import (
 	"context"
+	"errors"
 	"fmt"
 
 	"go.miragespace.co/specter/spec/chord"
@@ -72,7 +73,7 @@ func (n *LocalNode) Join(peer chord.VNode) error {
 		n.logger.Warn("error sending advisory to predecessor", zap.Error(err))
 	}
 	verifPoint("join.finish.self", n)
-	n.state.Set(chord.Active)                                     // release local join lock
+	n.state.Set(chord.Active) // release local join lock
 	verifPoint("join.finish.succ", n)
 	if err := successors[0].FinishJoin(false, true); err != nil { // release successor join lock
 		n.logger.Warn("error releasing join lock in successor", zap.Error(err))
@@ -104,13 +105,14 @@ func (n *LocalNode) executeJoin(peer chord.VNode) (predecessor chord.VNode, succ
 func (n *LocalNode) RequestToJoin(joiner chord.VNode) (chord.VNode, []chord.VNode, error) {
 	succ, err := n.FindSuccessor(joiner.ID())
 	if err != nil {
-		return nil, nil, err
+		return nil, nil, n.joinRoutingError(err)
 	}
 	if succ.ID() == joiner.ID() {
 		return nil, nil, chord.ErrDuplicateJoinerID
 	}
 	if succ.ID() != n.ID() {
-		return succ.RequestToJoin(joiner)
+		pre, succList, err := succ.RequestToJoin(joiner)
+		return pre, succList, n.joinRoutingError(err)
 	}
 
 	var (
@@ -181,6 +183,17 @@ func (n *LocalNode) RequestToJoin(joiner chord.VNode) (chord.VNode, []chord.VNod
 	n.surrogate = joiner
 
 	return prevPredecessor, chord.MakeSuccListByID(n, n.getSuccessors(), chord.ExtendedSuccessorEntries), nil
+}
+
+// joinRoutingError turns "the request was routed to a node that has just left, or that is
+// itself still joining and has no successor yet" into a retryable refusal: this node is
+// still part of the ring and the pointers are being repaired, so the joiner should
+// simply try again
+func (n *LocalNode) joinRoutingError(err error) error {
+	if (errors.Is(err, chord.ErrNodeGone) || errors.Is(err, chord.ErrNodeNoSuccessor)) && n.checkNodeState(true) == nil {
+		return chord.ErrJoinInvalidState
+	}
+	return err
 }
 
 func (n *LocalNode) FinishJoin(stabilize bool, release bool) error {
